@@ -27,8 +27,8 @@ var (
 	// Enabled switches the ledger on.
 	Enabled atomic.Bool
 	mu      sync.Mutex
-	out     []ent // disjoint, sorted by lo
-	inPool  []ent // ranges the framework returned and nobody obtained again through this wrapper; disjoint, sorted by lo
+	out     []ent               // disjoint, sorted by lo
+	inPool  = map[uintptr]ent{} // slices the framework returned and nobody obtained again through this wrapper, by start address
 	seq     int64
 	alarms  []string
 	// Gets / Puts count calls; Tracked is the number of ranges currently tracked.
@@ -119,77 +119,62 @@ func Put(b []byte) {
 		Puts.Add(1)
 		lo, hi := rng(b)
 		mu.Lock()
-		var kept []ent
-		changed := false
-		for _, e := range out {
-			if e.hi <= lo || e.lo >= hi {
-				kept = append(kept, e)
-				continue
-			}
-			changed = true
+		// out is sorted by lo and disjoint: the overlapped entries form one contiguous run [i,j)
+		i := sort.Search(len(out), func(i int) bool { return out[i].hi > lo })
+		j := i
+		var repl []ent
+		for j < len(out) && out[j].lo < hi {
+			e := out[j]
 			bytesHeld -= int64(e.hi - e.lo)
 			if e.lo < lo {
-				kept = append(kept, ent{e.lo, lo, e.site, e.ref, e.seq})
+				repl = append(repl, ent{e.lo, lo, e.site, e.ref, e.seq})
 				bytesHeld += int64(lo - e.lo)
 			}
 			if e.hi > hi {
-				kept = append(kept, ent{hi, e.hi, e.site, e.ref, e.seq})
+				repl = append(repl, ent{hi, e.hi, e.site, e.ref, e.seq})
 				bytesHeld += int64(e.hi - hi)
 			}
+			j++
 		}
-		if changed {
-			out = kept
+		if k, r := j-i, len(repl); k > 0 {
+			if r <= k { // in place: the run shrinks (or keeps its length)
+				copy(out[i:], repl)
+				n := copy(out[i+r:], out[j:])
+				for z := i + r + n; z < len(out); z++ {
+					out[z] = ent{}
+				}
+				out = out[:i+r+n]
+			} else { // one entry split in the middle: it becomes two
+				out = append(out, ent{})
+				copy(out[j+1:], out[j:])
+				copy(out[i:], repl)
+			}
 		}
 		// returned twice: the range is already in the pool (nobody obtained it again in between), so two later Gets
 		// would be handed the same memory
 		st := site()
-		if e, ok := dropInPool(lo, hi); ok && len(alarms) < 50 {
+		if e, ok := inPool[lo]; ok && len(alarms) < 50 {
 			alarms = append(alarms, fmt.Sprintf("double-put: Put at %s returns [%#x,%#x) which was already returned at %s and has not been handed out since", st, lo, hi, e.site))
 		}
 		seq++
-		i := sort.Search(len(inPool), func(i int) bool { return inPool[i].lo >= lo })
-		inPool = append(inPool, ent{})
-		copy(inPool[i+1:], inPool[i:])
-		inPool[i] = ent{lo, hi, st, b[:cap(b)], seq}
-		if len(inPool) > maxEntries/4 {
-			// forget the older half (by sequence number), keeping the order by address
+		inPool[lo] = ent{lo, hi, st, b[:cap(b)], seq}
+		if len(inPool) > maxEntries/2 {
+			// forget the older half
 			cut := seq - int64(len(inPool)/2)
-			k := 0
-			for _, e := range inPool {
-				if e.seq > cut {
-					inPool[k] = e
-					k++
+			for k, e := range inPool {
+				if e.seq <= cut {
+					delete(inPool, k)
 				}
 			}
-			for j := k; j < len(inPool); j++ {
-				inPool[j] = ent{}
-			}
-			inPool = inPool[:k]
 		}
 		mu.Unlock()
 	}
 	bs.Put(b)
 }
 
-// dropInPool forgets returned ranges that overlap [lo,hi) (that memory is handed out again, or returned again) and
-// reports one of them. inPool is sorted by lo and disjoint. Caller holds mu.
-func dropInPool(lo, hi uintptr) (first ent, found bool) {
-	i := sort.Search(len(inPool), func(i int) bool { return inPool[i].hi > lo })
-	j := i
-	for j < len(inPool) && inPool[j].lo < hi {
-		if !found {
-			first, found = inPool[j], true
-		}
-		j++
-	}
-	if j > i {
-		n := copy(inPool[i:], inPool[j:])
-		for k := i + n; k < len(inPool); k++ {
-			inPool[k] = ent{}
-		}
-		inPool = inPool[:i+n]
-	}
-	return
+// dropInPool forgets the returned slice that starts at lo: that memory is handed out again. Caller holds mu.
+func dropInPool(lo, _ uintptr) {
+	delete(inPool, lo)
 }
 
 // Alarms returns and clears the alarms.
@@ -204,7 +189,7 @@ func Alarms() []string {
 // Reset forgets everything.
 func Reset() {
 	mu.Lock()
-	out, inPool, alarms, bytesHeld = nil, nil, nil, 0
+	out, inPool, alarms, bytesHeld = nil, map[uintptr]ent{}, nil, 0
 	mu.Unlock()
 }
 
